@@ -1,8 +1,12 @@
 package jph
 
 import (
+	"encoding/json"
 	"fmt"
 	"reflect"
+	"regexp"
+	"sort"
+	"strconv"
 	"strings"
 )
 
@@ -19,6 +23,15 @@ import (
 //          by the prefix (real library) and every member (`@` operand; once per container for a
 //          `$` operand) the operand's steps are evaluated with the real library and pushed
 //          through the same simulation.
+//   logic  `$.c[*][?(Q)]` where Q combines 2..3 operands with `&&` / `||` in both written orders:
+//          operands with a function in an `@`-rooted path (`@.a.f() > 1`, `@.a.f()`, `!@.a.f()`),
+//          function-free `@`-operands, and `@`-free operands (`$.flag == true`, `$.x`, `!$.x`,
+//          `1 == 1`, `$.max >= 2`, `$.max.g() >= 2`) that are true / false / about a missing member.
+//          Model-free oracle (c14LogicEval): operands are evaluated left to right AS WRITTEN, every
+//          function once per member that has the operand's value; the right operand of `&&` / `||`
+//          is skipped only when the left one is a whole-container verdict that decides (a list of
+//          length 1 in syntax_query_logical_and/or.go: an `@`-free operand, an operand no member
+//          satisfies, or a container with at most one member).
 //   any    functions anywhere (after the steps and inside arbitrary nested filters): only the
 //          model comparison below.
 // Every family: jpv-impl `calls f` must equal the recorded log, `run f` the outcome.
@@ -160,7 +173,7 @@ func c14Members(v interface{}) ([]interface{}, bool) {
 
 func (c14) Exec(seed int64, i int, tier string) Record {
 	r := CaseRng(seed, "C14", i)
-	family := []string{"tail", "infil", "any"}[r.Weighted([]int{55, 25, 20})]
+	family := []string{"tail", "infil", "any", "logic"}[r.Weighted([]int{47, 21, 17, 15})]
 	o := DefaultOpts()
 	o.ErrBias = 6
 	var doc interface{}
@@ -179,7 +192,11 @@ func (c14) Exec(seed int64, i int, tier string) Record {
 	haveExp := false
 	var opFns []Fn
 	var opPath *Path
+	var logicQ *Query
+	var logicTags []string
 	switch family {
+	case "logic":
+		doc, p, logicQ = c14GenLogic(r)
 	case "tail":
 		o.Funcs = false
 		for try := 0; try < 6; try++ {
@@ -304,6 +321,22 @@ func (c14) Exec(seed int64, i int, tier string) Record {
 			}
 		}
 	}
+	if family == "logic" {
+		Render(p, nil) // function texts
+		haveExp = true
+		root := doc.(map[string]interface{})
+		seen := map[string]bool{}
+		for _, cont := range root["c"].([]interface{}) {
+			ms, _ := c14Members(cont)
+			ev := &c14LogicEv{root: root, members: ms, tags: seen}
+			ev.eval(logicQ)
+			expCalls = append(expCalls, ev.calls...)
+		}
+		for t := range seen {
+			logicTags = append(logicTags, t)
+		}
+		sort.Strings(logicTags)
+	}
 	if family == "tail" {
 		Render(p, nil) // function texts
 		v0 = Run(Render(&Path{Head: HeadRoot, Steps: p.Steps}, nil), doc, &plain)
@@ -319,6 +352,7 @@ func (c14) Exec(seed int64, i int, tier string) Record {
 	if infilTwoPaths {
 		rec.Tags = append(rec.Tags, "infil:fn-in-$-operand-vs-@-path")
 	}
+	rec.Tags = append(rec.Tags, logicTags...)
 	if jn {
 		rec.Tags = append(rec.Tags, "decode:jnum")
 	}
@@ -357,6 +391,11 @@ func (c14) Exec(seed int64, i int, tier string) Record {
 	if haveExp {
 		if e, g := strings.Join(expCalls, " "), strings.Join(got, " "); e != g {
 			fail("call-protocol", "expected calls: "+clip(e, 500)+" / recorded: "+clip(g, 500))
+			if family == "logic" {
+				rec.Info["expected_calls"] = c14Readable(e)
+				rec.Info["recorded_calls"] = c14Readable(g)
+				rec.Info["rule"] = "operands of && / || are evaluated left to right as written, a function once per member that has the operand's value; the right operand is skipped only when the left one is a deciding verdict for the whole container"
+			}
 		}
 	}
 	if family == "tail" {
@@ -451,7 +490,380 @@ func (c14) Exec(seed int64, i int, tier string) Record {
 		rec.Tags = append(rec.Tags, "called:aggregate-fn")
 	}
 	if nCalls > 0 {
-		rec.Key = family + "/" + shapeKey(p) + "/" + c14FnOrder(opFns) + "/" + kind + fmt.Sprint(nCalls > 1, jn)
+		rec.Key = family + "/" + shapeKey(p) + "/" + c14FnOrder(opFns) + "/" + kind + fmt.Sprint(nCalls > 1, jn) + strings.Join(logicTags, ",")
 	}
 	return rec
+}
+
+// ---------- family `logic`: `&&` / `||` over `@`-rooted operands with functions and `@`-free operands ----------
+
+func c14KeyPath(head int, keys ...string) *Path {
+	p := &Path{Head: head}
+	for _, k := range keys {
+		p.Steps = append(p.Steps, &Step{Kind: StChild, Key: k})
+	}
+	return p
+}
+
+// c14LogicFns: mostly one or two filter functions that keep numbers numbers; sometimes any mixture.
+func c14LogicFns(r *Rng) []Fn {
+	if r.Chance(20) {
+		return c14GenFns(r, r.Range(1, 2))
+	}
+	n := r.Weighted([]int{0, 75, 25})
+	fns := make([]Fn, n)
+	for i := range fns {
+		fns[i] = Fn{Name: []string{"id", "twice", "failOdd", "failAll", "wrap"}[r.Weighted([]int{35, 30, 20, 8, 7})]}
+	}
+	return fns
+}
+
+func c14LogicCmp(r *Rng, p *Path) *Query {
+	q := &Query{Kind: QCmp, Op: []int{0, 2, 3, 4, 5}[r.Weighted([]int{20, 15, 15, 30, 20})],
+		L: &Operand{Path: p}, R: &Operand{IsLit: true, Lit: Lit{Kind: LitNum, N: int64(r.Range(-1, 4))}}}
+	if r.Chance(20) {
+		// `1 < @.a.f()`: the literal written first
+		q.L, q.R = q.R, q.L
+		q.Op = []int{0, 1, 4, 5, 2, 3}[q.Op]
+	}
+	return q
+}
+
+// c14LogicCur: an operand about the current member.
+func c14LogicCur(r *Rng) *Query {
+	if r.Chance(15) {
+		// function-free: `@.b`, `@.a > 1`
+		if r.Chance(50) {
+			return &Query{Kind: QExist, Neg: r.Chance(25), P: c14KeyPath(HeadCur, r.Pick([]string{"a", "b"}))}
+		}
+		return c14LogicCmp(r, c14KeyPath(HeadCur, "a"))
+	}
+	p := c14KeyPath(HeadCur, "a")
+	p.Fns = c14LogicFns(r)
+	if r.Chance(35) {
+		return &Query{Kind: QExist, Neg: r.Chance(25), P: p}
+	}
+	return c14LogicCmp(r, p)
+}
+
+// c14LogicFree: an operand that does not mention `@`.
+func c14LogicFree(r *Rng) *Query {
+	switch r.Weighted([]int{22, 16, 8, 10, 14, 18, 12}) {
+	case 0:
+		return &Query{Kind: QCmp, Op: 0, L: &Operand{Path: c14KeyPath(HeadRoot, "flag")}, R: &Operand{IsLit: true, Lit: Lit{Kind: LitBool, B: r.Chance(75)}}}
+	case 1:
+		return &Query{Kind: QExist, P: c14KeyPath(HeadRoot, r.Pick([]string{"x", "x", "nope"}))}
+	case 2:
+		return &Query{Kind: QExist, Neg: true, P: c14KeyPath(HeadRoot, r.Pick([]string{"x", "x", "nope"}))}
+	case 3:
+		return &Query{Kind: QCmp, Op: 0, L: &Operand{IsLit: true, Lit: Lit{Kind: LitNum, N: 1}}, R: &Operand{IsLit: true, Lit: Lit{Kind: LitNum, N: int64(r.Range(1, 2))}}}
+	case 4:
+		return c14LogicCmp(r, c14KeyPath(HeadRoot, "max"))
+	case 5:
+		p := c14KeyPath(HeadRoot, "max")
+		p.Fns = c14LogicFns(r)
+		return c14LogicCmp(r, p)
+	}
+	p := c14KeyPath(HeadRoot, "max")
+	p.Fns = c14LogicFns(r)
+	return &Query{Kind: QExist, Neg: r.Chance(25), P: p}
+}
+
+func c14GenLogic(r *Rng) (interface{}, *Path, *Query) {
+	num := func(lo, hi int) interface{} { return float64(r.Range(lo, hi)) }
+	member := func() interface{} {
+		switch r.Weighted([]int{68, 14, 6, 6, 6}) {
+		case 0:
+			m := map[string]interface{}{"a": num(-1, 5)}
+			if r.Chance(25) {
+				m["b"] = num(0, 2)
+			}
+			return m
+		case 1:
+			return map[string]interface{}{"b": num(0, 2)}
+		case 2:
+			return map[string]interface{}{"a": "s"}
+		case 3:
+			return map[string]interface{}{"a": []interface{}{num(0, 3), num(0, 3)}}
+		}
+		return num(0, 9)
+	}
+	nc := r.Weighted([]int{0, 75, 25})
+	conts := make([]interface{}, nc)
+	for k := range conts {
+		n := r.Weighted([]int{5, 15, 25, 30, 25})
+		if r.Chance(70) {
+			l := make([]interface{}, n)
+			for j := range l {
+				l[j] = member()
+			}
+			conts[k] = l
+		} else {
+			m := map[string]interface{}{}
+			for j := 0; j < n; j++ {
+				m[string(rune('p'+j))] = member()
+			}
+			conts[k] = m
+		}
+	}
+	doc := map[string]interface{}{"c": conts}
+	if r.Chance(75) {
+		doc["flag"] = r.Chance(55)
+	}
+	if r.Chance(60) {
+		doc["x"] = num(0, 3)
+	}
+	if r.Chance(80) {
+		doc["max"] = num(0, 4)
+	}
+	op := func() QKind {
+		if r.Chance(50) {
+			return QAnd
+		}
+		return QOr
+	}
+	var q *Query
+	if r.Chance(70) {
+		var a, b *Query
+		switch r.Weighted([]int{45, 33, 16, 6}) {
+		case 0:
+			a, b = c14LogicCur(r), c14LogicFree(r)
+		case 1:
+			a, b = c14LogicFree(r), c14LogicCur(r)
+		case 2:
+			a, b = c14LogicCur(r), c14LogicCur(r)
+		default:
+			a, b = c14LogicFree(r), c14LogicFree(r)
+		}
+		q = &Query{Kind: op(), A: a, B: b}
+	} else {
+		leaf := func() *Query {
+			if r.Chance(55) {
+				return c14LogicCur(r)
+			}
+			return c14LogicFree(r)
+		}
+		x, y, z := leaf(), leaf(), leaf()
+		if r.Chance(50) {
+			q = &Query{Kind: op(), A: &Query{Kind: op(), A: x, B: y}, B: z}
+		} else {
+			q = &Query{Kind: op(), A: x, B: &Query{Kind: op(), A: y, B: z}}
+		}
+	}
+	p := &Path{Head: HeadRoot, Steps: []*Step{{Kind: StChild, Key: "c"}, {Kind: StWild, Bracket: true}, {Kind: StFilter, Q: q}}}
+	if r.Chance(25) {
+		p.Steps = append(p.Steps, &Step{Kind: StChild, Key: "a"})
+	}
+	return doc, p, q
+}
+
+// c14LogicEv evaluates a `logic` query on one filtered container the way the property states it:
+// left to right as written, skipping a right operand only after a deciding whole-container verdict.
+type c14LogicEv struct {
+	root    interface{}
+	members []interface{}
+	calls   []string
+	tags    map[string]bool
+}
+
+// the value of one operand: a verdict for the whole container, or one truth value per member
+type c14LogicVal struct {
+	verdict bool
+	v       bool
+	per     []bool
+}
+
+func c14Num(v interface{}) (float64, bool) {
+	switch t := v.(type) {
+	case float64:
+		return t, true
+	case json.Number:
+		f, err := t.Float64()
+		return f, err == nil
+	}
+	return 0, false
+}
+
+// operand: the value of a path operand for `from` (nothing when a member is missing or a function fails).
+func (e *c14LogicEv) operand(p *Path, from interface{}) (interface{}, bool) {
+	v := from
+	for _, s := range p.Steps {
+		m, ok := v.(map[string]interface{})
+		if !ok {
+			return nil, false
+		}
+		if v, ok = m[s.Key]; !ok {
+			return nil, false
+		}
+	}
+	sim := c14Simulate([]interface{}{v}, true, p.Fns)
+	e.calls = append(e.calls, sim.Calls...)
+	if len(sim.Out) != 1 {
+		return nil, false
+	}
+	return sim.Out[0], true
+}
+
+func c14LogicTruth(op int, l interface{}, lit Lit) bool {
+	switch lit.Kind {
+	case LitBool:
+		b, ok := l.(bool)
+		return ok && op == 0 && b == lit.B
+	case LitNum:
+		f, ok := c14Num(l)
+		if !ok {
+			return false
+		}
+		n := float64(lit.N)
+		switch op {
+		case 0:
+			return f == n
+		case 2:
+			return f < n
+		case 3:
+			return f <= n
+		case 4:
+			return f > n
+		case 5:
+			return f >= n
+		}
+	}
+	return false
+}
+
+func (e *c14LogicEv) collapse(per []bool) c14LogicVal {
+	any := false
+	for _, t := range per {
+		any = any || t
+	}
+	switch {
+	case len(per) == 0 || !any:
+		return c14LogicVal{verdict: true, v: false}
+	case len(per) == 1:
+		return c14LogicVal{verdict: true, v: true}
+	}
+	return c14LogicVal{per: per}
+}
+
+// leaf: test(from) says whether the operand holds for one member / for the root.
+func (e *c14LogicEv) leaf(head int, neg bool, test func(from interface{}) bool) c14LogicVal {
+	var val c14LogicVal
+	if head == HeadRoot {
+		val = c14LogicVal{verdict: true, v: test(e.root)}
+	} else {
+		per := make([]bool, len(e.members))
+		for k, m := range e.members {
+			per[k] = test(m)
+		}
+		val = e.collapse(per)
+	}
+	if !neg {
+		return val
+	}
+	if val.verdict {
+		return c14LogicVal{verdict: true, v: !val.v}
+	}
+	per := make([]bool, len(val.per))
+	for k, t := range val.per {
+		per[k] = !t
+	}
+	return e.collapse(per)
+}
+
+func (e *c14LogicEv) eval(q *Query) c14LogicVal {
+	switch q.Kind {
+	case QExist:
+		return e.leaf(q.P.Head, q.Neg, func(from interface{}) bool {
+			_, ok := e.operand(q.P, from)
+			return ok
+		})
+	case QCmp:
+		l, rr, op := q.L, q.R, q.Op
+		if l.IsLit && !rr.IsLit {
+			l, rr, op = rr, l, []int{0, 1, 4, 5, 2, 3}[op]
+		}
+		if l.IsLit {
+			return c14LogicVal{verdict: true, v: l.Lit.Kind == rr.Lit.Kind && l.Lit == rr.Lit}
+		}
+		return e.leaf(l.Path.Head, false, func(from interface{}) bool {
+			v, ok := e.operand(l.Path, from)
+			return ok && c14LogicTruth(op, v, rr.Lit)
+		})
+	}
+	a := e.eval(q.A)
+	and := q.Kind == QAnd
+	side := func(x *Query) string {
+		if c14MentionsCur(x) {
+			return "@"
+		}
+		return "$"
+	}
+	written := "logic:written:" + side(q.A) + pick(and, "&&", "||").(string) + side(q.B)
+	e.tags[written] = true
+	if a.verdict && a.v != and {
+		// `false && …`, `true || …`: the verdict decides, the right operand is not evaluated
+		e.tags["logic:right-operand-skipped"] = true
+		if c14HasFns(q.B) {
+			e.tags[written+":function-operand-skipped"] = true
+		}
+		return a
+	}
+	b := e.eval(q.B)
+	e.tags["logic:right-operand-evaluated"] = true
+	switch {
+	case a.verdict:
+		return b // `true && b`, `false || b`
+	case b.verdict:
+		if b.v == and {
+			return a // `a && true`, `a || false`
+		}
+		return b
+	}
+	per := make([]bool, len(a.per))
+	for k := range per {
+		if and {
+			per[k] = a.per[k] && b.per[k]
+		} else {
+			per[k] = a.per[k] || b.per[k]
+		}
+	}
+	return e.collapse(per)
+}
+
+func c14MentionsCur(q *Query) bool {
+	switch q.Kind {
+	case QAnd, QOr:
+		return c14MentionsCur(q.A) || c14MentionsCur(q.B)
+	case QExist:
+		return q.P.Head == HeadCur
+	case QCmp:
+		return !q.L.IsLit && q.L.Path.Head == HeadCur || !q.R.IsLit && q.R.Path.Head == HeadCur
+	}
+	return false
+}
+
+func c14HasFns(q *Query) bool {
+	switch q.Kind {
+	case QAnd, QOr:
+		return c14HasFns(q.A) || c14HasFns(q.B)
+	case QExist:
+		return len(q.P.Fns) > 0
+	case QCmp:
+		return !q.L.IsLit && len(q.L.Path.Fns) > 0 || !q.R.IsLit && len(q.R.Path.Fns) > 0
+	}
+	return false
+}
+
+var c14SexpStr = regexp.MustCompile(`\(s[ 0-9]*\)`)
+
+// c14Readable: a call log with the `(s 102 …)` strings spelled as text.
+func c14Readable(log string) string {
+	return c14SexpStr.ReplaceAllStringFunc(log, func(m string) string {
+		var b strings.Builder
+		for _, f := range strings.Fields(m[2 : len(m)-1]) {
+			n, _ := strconv.Atoi(f)
+			b.WriteRune(rune(n))
+		}
+		return strconv.Quote(b.String())
+	})
 }
